@@ -28,6 +28,14 @@ def step (built : Bool) (op impl : String) : Bool × String × String :=
   | ["mut", cls, _, _, _] =>
     if !built then (built, "no-archive", "ok")
     else if impl == "skip" ∨ impl == "bad-op" then (built, "-", "ok")
+    else if cls == "chunk-bitsweep" then
+      -- every single-bit change of a stored chunk object must be detected (c38_detects_chunk)
+      let nat := fun (k : String) => ((impl.splitOn " ").filterMap (fun t => match t.splitOn "=" with
+        | [a, v] => if a == k then v.toNat? else none | _ => none)).head?
+      match nat "flips", nat "undetected", nat "storeundetected" with
+      | some f, some 0, some 0 => (built, "-", if f > 0 then "ok" else "viol:mut-output-malformed")
+      | some _, some _, some _ => (built, "-", "viol:undetected-chunk-bitflip")
+      | _, _, _ => (built, "-", "viol:mut-output-malformed")
     else if impl == "verify=ok" then (built, "-", "viol:undetected-" ++ cls)
     else if impl.startsWith "verify=err:" then (built, "-", "ok")
     else (built, "-", "viol:mut-output-malformed")
